@@ -309,8 +309,13 @@ class ConformationContainer:
         self,
         groups: Iterable[Group],
         get_coupled_groups: CallableGroupToGroups,
-    ) -> Iterator[Set[Group]]:
+    ) -> Iterator[List[Group]]:
         """A generator that yields covalently coupled systems.
+
+        Systems, and the groups within each system, are yielded in the order
+        of this container's group list: groups hash by identity, so the
+        iteration order of a set of groups depends on memory addresses and
+        must not leak into the results.
 
         Args:
             groups:  groups for generating coupled systems
@@ -318,15 +323,20 @@ class ConformationContainer:
         Yields:
             covalently coupled systems
         """
-        groups = set(groups)
-        while len(groups) > 0:
+        position = {id(group): i for i, group in enumerate(self.groups)}
+
+        def by_position(group: Group) -> int:
+            return position.get(id(group), len(position))
+
+        remaining = sorted(set(groups), key=by_position)
+        while len(remaining) > 0:
             # extract a system of coupled groups ...
             system: Set[Group] = set()
             self.get_a_coupled_system_of_groups(
-                groups.pop(), system, get_coupled_groups)
+                remaining[0], system, get_coupled_groups)
             # ... and remove them from the list
-            groups -= system
-            yield system
+            remaining = [group for group in remaining if group not in system]
+            yield sorted(system, key=by_position)
 
     def get_a_coupled_system_of_groups(self, new_group: Group,
                                        coupled_groups: Set[Group],
